@@ -459,15 +459,32 @@ class Facts:
             st.extend(cg.get(d, ()))
         return seen
 
-    def callers_of(self, target_def):
-        """list of (fn, bb, term) for every call site (incl. cleanup) whose canonical callee is target_def"""
+    def callers_of(self, target_def, collapse_helpers=True):
+        """list of (fn, bb, term) for every call site (incl. cleanup) whose canonical callee is target_def.
+        A call site inside a function that does not exist on the reference tree (an extracted helper, see symex.is_new_helper)
+        is attributed to the helper's own callers: who-may-call rules name the reference tree's functions."""
         out = []
         for fn in self.fns.values():
             for f in [fn] + fn.promoted:
                 for bb, t in f.calls(include_cleanup=True):
                     if callee_def(t) == target_def or callee_name(t) == target_def:
                         out.append((f, bb, t))
-        return out
+        if not collapse_helpers:
+            return out
+        import symex
+        res, seen = [], set()
+        work = list(out)
+        while work:
+            f, bb, t = work.pop(0)
+            owner = self.fns.get(f.root) if f.kind in ('closure', 'promoted') and f.root in self.fns else f
+            if owner is not None and symex.is_new_helper(owner) and owner.defp not in seen:
+                seen.add(owner.defp)
+                up = self.callers_of(owner.defp, collapse_helpers=False)
+                if up:
+                    work.extend(up)
+                    continue
+            res.append((f, bb, t))
+        return res
 
 
 # ------------------------------------------------------------------------------------------
